@@ -1,6 +1,6 @@
 (* Proofs about Tool/Ini.v: strip/split lemmas, per-line classification lemmas of the
    configparser model, the round trip, de-duplication, env-name safety. *)
-From Coq Require Import ZArith List Bool Lia.
+From Coq Require Import String ZArith List Bool Lia.
 From RV Require Import Base.Wire Base.Text Gen.Registry Tool.Registry Tool.Ini Proofs.RegistryP.
 Import ListNotations.
 Open Scope Z_scope.
@@ -791,4 +791,111 @@ Proof.
       apply last_nonspace_join; [discriminate|].
       intros m Hm. rewrite forallb_forall in Hu. apply (real_lib_facts m (Hu m Hm)). }
     rewrite J2. reflexivity.
+Qed.
+
+(* write_project as a whole: a valid pair writes the file that reads back, an invalid pair nothing *)
+Lemma registered_all_boards pl b : registered pl b -> In b all_boards.
+Proof.
+  intros (bs & H1 & H2). unfold all_boards. apply in_concat. exists bs. split; [|exact H2].
+  apply in_map_iff. exists (pl, bs). auto.
+Qed.
+
+Lemma roundtrip_registered pl b port libs :
+  validate pl b = None -> value_ok port = true -> forallb lib_ok libs = true ->
+  exists t, write_ini pl b port libs = inr t /\ ini_read t = Some (expected_ini pl b port libs).
+Proof.
+  intros V Hport Hlibs. unfold write_ini. rewrite V. eexists. split; [reflexivity|].
+  apply (validate_exact _ _ generated_tables_ok) in V.
+  destruct (registered_names_ok pl b V) as [Hpl Hb].
+  apply roundtrip; assumption.
+Qed.
+
+Lemma invalid_writes_nothing pl b port libs e :
+  validate pl b = Some e -> write_ini pl b port libs = inl e.
+Proof. intro V. unfold write_ini. rewrite V. reflexivity. Qed.
+
+(* the guard named in the work order (no blank other than " " anywhere) implies the one proved *)
+Lemma plain_value_ok t : plain_value t = true -> value_ok t = true.
+Proof.
+  unfold plain_value, value_ok. intro H. apply andb_true_iff in H as [H1 H2]. rewrite H2, andb_true_r.
+  apply forallb_forall. intros c Hc. rewrite forallb_forall in H1. specialize (H1 c Hc).
+  destruct (c =? c_nl) eqn:E1; [apply Z.eqb_eq in E1; subst; discriminate|].
+  destruct (c =? c_cr) eqn:E2; [apply Z.eqb_eq in E2; subst; discriminate|]. reflexivity.
+Qed.
+
+Lemma no_padding_iff t : no_padding t = true <-> strip t = t.
+Proof. split; [apply no_padding_strip|apply strip_fix_no_padding]. Qed.
+
+Lemma registry_sanitize_injective_reg p1 p2 a b :
+  registered p1 a -> registered p2 b -> sanitize_env_name a = sanitize_env_name b -> a = b.
+Proof.
+  intros R1 R2. apply (sanitize_injective_lift all_boards registry_sanitize_injective);
+    eapply registered_all_boards; eassumption.
+Qed.
+
+Lemma registered_names_plain pl b : registered pl b -> reg_name_ok pl = true /\ reg_name_ok b = true.
+Proof.
+  intros (bs & H1 & H2).
+  pose proof registry_names_plain as R. rewrite forallb_forall in R.
+  split; apply R, in_or_app.
+  - left. apply in_map_iff. exists (pl, bs). auto.
+  - right. apply (registered_all_boards pl b). exists bs. auto.
+Qed.
+
+Lemma dedup_first_seen libs :
+  format_lib_section libs =
+    match given_libs libs with
+    | [] => []
+    | ns => t_lib_deps_eq ++ concat (map (fun n => c_nl :: c_sp :: c_sp :: n) ns)
+    end
+  /\ NoDup (given_libs libs)
+  /\ (forall x, In x (given_libs libs) <-> In x libs /\ x <> [])
+  /\ (forall l1 l2, libs = l1 ++ l2 ->
+        given_libs libs = given_libs l1 ++ filter (fun x => negb (tmem x l1)) (given_libs l2)).
+Proof.
+  split; [apply format_lib_section_spec|]. split; [apply nodup_first_NoDup|].
+  split; [apply given_libs_In|].
+  intros l1 l2 ->. unfold given_libs. rewrite filter_app, nodup_first_app. f_equal.
+  apply filter_ext_in. intros x Hx. apply nodup_first_In, filter_In in Hx as [_ Hx].
+  f_equal. clear -Hx. induction l1 as [|a r IH]; [reflexivity|]. cbn [filter tmem].
+  destruct (nonempty a) eqn:Ea; cbn [tmem]; rewrite IH; [reflexivity|].
+  destruct (text_eqb x a) eqn:E; [|reflexivity].
+  apply text_eqb_eq in E. subst. congruence.
+Qed.
+
+(* ------------------------------------------------------------ refutations outside the guard *)
+Definition w_avr : text := Eval vm_compute in txt "atmelavr".
+Definition w_uno : text := Eval vm_compute in txt "uno".
+Definition w_com3 : text := Eval vm_compute in txt "COM3".
+Definition w_servo : text := Eval vm_compute in txt "Servo".
+
+(* F-C13-port-padding: the blanks around the port are lost *)
+Lemma port_padding_refuted :
+  exists port, no_break port = true /\ validate w_avr w_uno = None /\
+    ini_read (render w_avr w_uno port []) = Some (expected_ini w_avr w_uno w_com3 []) /\
+    expected_ini w_avr w_uno w_com3 [] <> expected_ini w_avr w_uno port [].
+Proof.
+  exists (c_sp :: w_com3 ++ [c_sp]). repeat split; try (vm_compute; reflexivity).
+  vm_compute. intro H. inversion H.
+Qed.
+
+(* F-C13-lib-comment: a library named "#x" is written as a comment line and disappears *)
+Lemma lib_comment_refuted :
+  exists libs, forallb no_break libs = true /\ forallb no_padding libs = true /\
+    ini_read (render w_avr w_uno w_com3 libs) = Some (expected_ini w_avr w_uno w_com3 [w_servo]) /\
+    expected_ini w_avr w_uno w_com3 [w_servo] <> expected_ini w_avr w_uno w_com3 libs.
+Proof.
+  exists [[c_hash; 120]; w_servo]. repeat split; try (vm_compute; reflexivity).
+  vm_compute. intro H. inversion H.
+Qed.
+
+(* F-C13-lib-padding: the blanks around a library name are lost *)
+Lemma lib_padding_refuted :
+  exists libs, forallb no_break libs = true /\
+    forallb (fun n => match n with c :: _ => negb (is_comment_prefix c) | [] => true end) libs = true /\
+    ini_read (render w_avr w_uno w_com3 libs) = Some (expected_ini w_avr w_uno w_com3 [w_servo]) /\
+    expected_ini w_avr w_uno w_com3 [w_servo] <> expected_ini w_avr w_uno w_com3 libs.
+Proof.
+  exists [c_sp :: w_servo ++ [c_sp]]. repeat split; try (vm_compute; reflexivity).
+  vm_compute. intro H. inversion H.
 Qed.
